@@ -239,6 +239,14 @@ func Print(scripts []*Script) string {
 	return p.sb.String()
 }
 
+// PrintBody renders a statement list at the given indentation (used to place
+// generated statements inside hand-written wrappers such as poryswitch cases).
+func PrintBody(stmts []Stmt, indent int) string {
+	p := &printer{}
+	p.block(stmts, indent)
+	return p.sb.String()
+}
+
 // Walk calls f on every statement in preorder.
 func Walk(stmts []Stmt, f func(*Stmt)) {
 	for i := range stmts {
